@@ -35,7 +35,7 @@ def gen_params(ctx, double_only=False):
     n = 14 if ctx.quick else 140
     for k in range(n):
         double = True if double_only else bool(k % 3)
-        force = {"nta": [0, 1, 2][k % 3], "noise": float(rng.choice([0.002, 0.01, 0.05])), "nmatch": 0}
+        force = {"nta": [0, 1, 2][(k // 3 + k) % 3], "noise": float(rng.choice([0.002, 0.01, 0.05])), "nmatch": 0}
         force["nx"] = int(rng.integers(10, 14)) if force["nta"] == 0 else int(rng.integers(16, 22))
         force["var_mode"] = calib.VAR_MODES[(k // 3 + k) % len(calib.VAR_MODES)]  # every variance form for single and double ended
         p = calib.random_params(rng, double, quick=True, **force)
